@@ -7,6 +7,13 @@ COMP = "svclife"
 
 # genuine mismatches between the property and the code: replayed on the implementation in every run
 FINDINGS = {
+    "finding:reqres-slice-payload-zero-limit-panics":
+        "request_response builders with a slice payload ([T] request and/or response, and every language binding, which uses [CustomPayloadMarker] for both) "
+        "do not call adjust_configuration_to_meaningful_values in create_with_attributes (builder/request_response.rs:1289-1310, 1429-1450, 1563-1580; the "
+        "fixed-size variant :1154-1170 and open_or_create_impl :974 do): max_servers(0), max_clients(0) or max_nodes(0) reach the dynamic config -> fatal "
+        "panic inside create instead of a service or a documented error (max_active_requests_per_client / max_loaned_requests / "
+        "max_borrowed_responses_per_pending_response / max_response_buffer_size = 0 are written to the static config unadjusted); the same defect as the "
+        "publish-subscribe one fixed by 0c61d51 (theorems create_outcome_documented / clamped_create_never_panics hold for the model, which adjusts)",
     "finding:same-node-concurrent-create-removes-service-tag":
         "Node::create_service_tag treats AlreadyExists as `this node already uses the service` (node/mod.rs:1083-1103) and returns None; when two "
         "threads of one node call create (or create / open) for the same service concurrently (builders are Send), the thread that made the tag "
@@ -52,6 +59,51 @@ def line_oracle(case, idx, base):
     return None
 
 
+class Users:
+    """the property's lifetime / atomicity clauses on the implementation's answers alone: which port factories and ports the
+    history holds (from the accepted calls), and what the next answers therefore have to be"""
+
+    def __init__(self):
+        self.h, self.p = {}, {}
+
+    def users(self, key):
+        return sum(1 for k in self.h.values() if k == key) + sum(1 for k in self.p.values() if k == key)
+
+    def check(self, op, base):
+        t = op.split(" ")
+        if t[0] == "exists":
+            if (base == "true") != (self.users((t[1], t[2])) > 0) and base in ("true", "false"):
+                return "oracle:exists-without-users" if base == "true" else "oracle:vanished-although-users"
+        elif t[0] in ("create", "open", "ooc") and len(t) > 4 and base not in ("dup", "no-node"):
+            u = self.users((t[2], t[4]))
+            if t[0] == "create" and u == 0 and base == "err:AlreadyExists":
+                return "oracle:create-AlreadyExists-without-users"
+            if t[0] == "open" and u == 0 and base != "err:DoesNotExist":
+                return "oracle:open-of-unused-name-is-not-DoesNotExist"
+            if t[0] == "open" and u > 0 and base == "err:DoesNotExist":
+                return "oracle:open-DoesNotExist-although-users"
+            if t[0] == "ooc" and u == 0 and "OpenError(" in base:
+                return "oracle:open_or_create-of-unused-name-open-error"
+        elif t[0] == "ls" and not self.h and not self.p and base != "-":
+            return "oracle:files-without-users:" + "+".join(sorted(k.split("=")[0] for k in base.split(",")))
+        elif t[0] == "end" and base != "-":
+            return "oracle:leftover-after-everything-dropped:" + "+".join(sorted(k.split("=")[0] for k in base.split(",")))
+        return None
+
+    def update(self, op, base):
+        t = op.split(" ")
+        if t[0] in ("create", "open", "ooc") and base.startswith("ok:"):
+            self.h[t[3]] = (t[2], t[4])
+        elif t[0] == "drop" and base == "ok":
+            self.h.pop(t[1], None)
+        elif t[0] == "port" and base == "ok" and t[1] in self.h:
+            self.p[t[2]] = self.h[t[1]]
+        elif t[0] == "dport" and base == "ok":
+            self.p.pop(t[1], None)
+        elif t[0] == "end":
+            self.h, self.p = {}, {}
+
+
 def report_finding(ctx, key, replay_obj, how):
     registered = [kf["key"] for kf in ctx.known if kf.get("property") == ctx.prop]
     if key not in ctx.extra.setdefault("findings_reproduced", []):
@@ -66,13 +118,16 @@ def report_finding(ctx, key, replay_obj, how):
 def mismatch_at(ops, want):
     impl, model = replay_case(ops)
     case = [(o, "") for o in ops]
+    trk = Users()
     for i in range(len(ops)):
         io = impl[i] if i < len(impl) else "<none>"
         mo = model[i] if i < len(model) else "<none>"
         base = io.split(" ORACLE[", 1)[0]
         if base != io and classify(case, i, io, mo) == want:
             return i
-        if line_oracle(case, i, base) == want:
+        k2 = line_oracle(case, i, base) or trk.check(ops[i], base)
+        trk.update(ops[i], base)
+        if k2 == want:
             return i
         if base != mo:
             return i if classify(case, i, base, mo) == want else None
@@ -123,6 +178,7 @@ def diff(ctx, jobs):
         k = 0
         st = per_label.setdefault(label, [0, 0])
         for c in cases:
+            trk = Users()
             ctx.evaluations += 1
             st[0] += 1
             st[1] += len(c)
@@ -140,9 +196,12 @@ def diff(ctx, jobs):
                     key = classify(c, i, iout, mout)
                     if key and key not in bad:
                         bad[key] = (label, c, i, iout, mout)
-                key = line_oracle(c, i, base)
+                key = line_oracle(c, i, base) or trk.check(op, base)
+                trk.update(op, base)
                 if key and key not in bad:
                     bad[key] = (label, c, i, base + " ORACLE[" + key + "]", mout)
+                if w[0] in ("create", "ooc") and base.startswith("err:") and not any(x in base for x in ("AlreadyExists", "OpenError(")):
+                    ctx.count("refused-create." + re.sub(r"^err:(\w+Error\()?", "", base).rstrip(")"))
                 if base != mout:
                     key = classify(c, i, base, mout)
                     if key and key not in bad:
@@ -295,7 +354,19 @@ def stress(ctx, rounds, creators, openers):
     ctx.log(f"[stress] {rounds} rounds of {creators} creators + {openers} openers (processes): {stats}, {len(bad)} oracle failure(s) ({time.time()-t:.1f}s)")
 
 
+RR_SLICE_CASE = ["new ipc", "node 0", "create 0 0 0 rr sv=0 qt=xu64_8_8"]
+
+
 def replay_findings(ctx, samenode_rounds):
+    impl, model = replay_case(RR_SLICE_CASE)
+    ctx.count("findings.replayed")
+    if impl and impl[-1] == "PANIC":
+        report_finding(ctx, "finding:reqres-slice-payload-zero-limit-panics",
+                       dict(engine="svclife", component=COMP, ops=RR_SLICE_CASE, impl=impl, model=model), f"`{RR_SLICE_CASE[-1]}` => PANIC (model: {model[-1] if model else '?'})")
+    else:
+        ctx.log(f"[finding] reqres-slice-payload-zero-limit-panics no longer reproduces (`{RR_SLICE_CASE[-1]}` => {impl[-1] if impl else '?'}): "
+                "remove it from FINDINGS and the zero-limit filter for custom request-response payloads from harness/src/svc/generate.rs")
+        ctx.extra.setdefault("findings_gone", []).append("finding:reqres-slice-payload-zero-limit-panics")
     p = subprocess.run([SVCLIFE, "stress", str(samenode_rounds), "0", "0", str(ctx.seed), "samenode"], capture_output=True, text=True, timeout=1200)
     m = re.search(r"winner-without-tag (\d+)", p.stdout)
     ctx.count("findings.replayed")
